@@ -122,6 +122,7 @@ pub fn run_plan(b: u64, plan: &Value, seed: u64, out: &mut Out) -> (u64, bool) {
 
     // the projection line after a step
     let pre_timeout = std::cell::Cell::new(500 * MS);
+    let reused: std::cell::RefCell<Vec<u32>> = std::cell::RefCell::new(vec![]);
     let mut emit = |sim: &mut Sim, calls: &mut Vec<Option<Call>>, called: &Vec<String>, reqs: &mut HashMap<u32, (SocketAddrV4, String, u64)>, log_pos: &mut usize,
                     step: Value, prev_live_empty: &mut bool, out: &mut Out| {
         // absorb new wire records (requests the node sent during this step)
@@ -131,6 +132,10 @@ pub fn run_plan(b: u64, plan: &Value, seed: u64, out: &mut Out) -> (u64, bool) {
                 if let Some(m) = &r.msg {
                     if m.is_request() {
                         if let Some(t) = m.tid_u32() {
+                            // a (transaction id, address) pair identifies ONE request of a behaviour
+                            if reqs.get(&t).map(|old| old.0 == r.to && old.2 != r.sent_ns).unwrap_or(false) {
+                                reused.borrow_mut().push(t);
+                            }
                             reqs.insert(t, (r.to, m.q.clone().unwrap_or_default(), r.sent_ns));
                         }
                     }
@@ -215,6 +220,7 @@ pub fn run_plan(b: u64, plan: &Value, seed: u64, out: &mut Out) -> (u64, bool) {
         line["b"] = json!(b);
         line["t_ms"] = json!((now - t0) / MS);
         line["expired"] = json!(expired);
+        line["tid_reused"] = json!(reused.borrow().clone());
         line["proj"] = proj;
         line["outcomes"] = Value::Object(outcomes);
         line["quiet"] = json!(*prev_live_empty && line["e"] == "tick" && line["input"]["dir"] == "timeout");
